@@ -5,6 +5,8 @@
            the normal form (negation, masked copy of y, copy of an operand the routine itself normalised)
   SM-SIGN  every sibling honours the sign of each scalar parameter on every path that returns a point computed from it
            (sign test, reduction modulo the order, delegation); see sa/py/relic_sa/expsib.py
+  ALIAS-RW no coordinate of an input point is read in a later statement than a write of that coordinate of an output point
+           (single points only: "equal operands", results stored over an operand)
   OUT-RBW  no field of an output point is read before it was written on every path (the suite calls the normalisation
            and addition routines in place, where output and input are the same object)
   SM-RED   a scalar handed to a recoder whose buffer is a fixed-size array has been reduced modulo the group order
@@ -25,6 +27,7 @@ EXPLANATION = (
     "a recoder with a fixed-size buffer were reduced modulo the group order. Does not decide that the formulas are the group "
     "law, that recodings denote k, nor the exceptional-case dispatch. Nothing of RELIC is executed.")
 
+POINT_ALIAS_OK = {("ep_norm_imp", "r", "p", "z", "ep_copy"): "default arm of the coordinate switch in the normalisation helper: p->coord is PROJC or JACOB there, the arm that copies p whole is unreachable"}
 FAMILY = re.compile(r"^ep_mul(_[a-z0-9_]+)?$")
 NOT_MUL = re.compile(r"^ep_mul_(pre|fix_tab|cof|tab)|^ep_mul_pre_")
 NORMALISERS = {"ep_norm", "ep_set_infty"}
@@ -213,6 +216,7 @@ def analyse(ctx, prog, chk):
     from .. import expsib
     return {"norm": rule_sm_norm(ctx, prog, chk), "red": rule_sm_red(ctx, prog, chk),
             "sign": expsib.rule_sm_sign(ctx, prog, chk, family(prog), FAMILY),
+            "palias": alias.rule(ctx, prog, chk, lambda fn: fn.rfile.startswith("src/ep/"), POINT_ALIAS_OK, points=True)[0],
             "rbw": alias.rule_out_rbw(ctx, prog, chk, lambda fn: fn.rfile.startswith("src/ep/"), re.compile(r"^ep_t\b"))}
 
 
@@ -225,4 +229,5 @@ def run(ctx, chk):
     chk.floor("SM-NORM", "ep_mul* bodies", c["norm"], 25)
     chk.floor("SM-RED", "scalars reaching fixed-size recoders", c["red"], 10)
     chk.floor("SM-SIGN", "scalar parameters of the multiplication siblings", c["sign"], 30)
+    chk.floor("ALIAS-RW", "output/input pairs of single points", c["palias"], 50)
     chk.floor("OUT-RBW", "output points of functions that also take an input point", c["rbw"], 50)
